@@ -6,20 +6,7 @@ from pathlib import Path
 V = Path(__file__).resolve().parents[1]
 ALL = [f"C{i:02d}" for i in range(1, 19)]
 
-CHECKS = {
-    "C07": dict(
-        text="Lean 4 theorems (29, kernel-checked, standard axioms only) prove for every setmap and every platforms argument that the "
-             "exact-rational model of coverage/average coverage/distance/divergence equals its definition, is symmetric, zero on the "
-             "diagonal, within range, NaN exactly when undefined, and invariant under reordering, injective renaming and scaling. "
-             "The model is tied to report.py on every run by a correspondence check (exhaustive small tables + random tables up to "
-             "8 platforms / counts 1e12) and the implementation is also judged directly against the definitions evaluated with "
-             "Python Fractions and against the metamorphic laws.",
-        note="Trusted: Lean kernel; propext/Classical.choice/Quot.sound; the correspondence is differential testing (model = code on "
-             "the inputs explored); IEEE rounding is not modelled (floats accepted within 1e-9 relative of the exact rational).",
-        technique="Lean 4 proof over an exact-rational model + model/implementation correspondence check",
-        design="5/C07",
-    ),
-}
+CHECKS = {p.stem: json.loads(p.read_text()) for p in sorted((V / "manifest.d").glob("C*.json"))}
 
 NOT_YET = "check not built yet in this snapshot (planned: Lean 4 model + theorems + correspondence, see DESIGN.md section 5)"
 
